@@ -103,6 +103,8 @@ def generate(seed, tier):
             ops.append(["compute"]); ncomp += 1; nres += 1
         elif r < 0.42:
             fsel = ["grid", rw.randrange(0, 64)] if rw.random() < 0.5 else ["free", round(rw.uniform(0.0, 0.5), 5)]
+            if rw.random() < 0.08:
+                fsel = ["free", rw.choice([0.0, 0.5])]          # DC / Nyquist
             if data.get("line_f") is not None and rw.random() < 0.5:
                 fsel = ["free", data["line_f"]]        # right on the record's spectral line (tiny scatter between segments)
             lsel = rw.choice([["planL", rw.randrange(0, 64)], ["L", rw.randrange(1, min(N, 48 if sim else N) + 1)],
